@@ -46,6 +46,21 @@ var HdrRegexes = []struct{ re, val string }{
 
 func pick(rng *rand.Rand, n int) int { return rng.Intn(n) }
 
+// Respell returns method token m in a random case spelling: HTTP method
+// tokens are case-sensitive on the wire and pass through net/http unchanged,
+// while method.Filter compares them ignoring case (martian's own tests
+// configure "get" against GET requests), so both sides are drawn in upper,
+// lower and mixed case.
+func Respell(rng *rand.Rand, m string) string {
+	switch rng.Intn(10) {
+	case 0, 1:
+		return strings.ToLower(m)
+	case 2:
+		return m[:1] + strings.ToLower(m[1:])
+	}
+	return m
+}
+
 // GenOpts bounds the random tree generator.
 type GenOpts struct {
 	MaxDepth  int    // levels, >= 1
@@ -184,6 +199,11 @@ func (g *gen) filterParams(n *Node) {
 	case KHdr:
 		n.A["name"] = HNames[pick(r, len(HNames))]
 		n.A["value"] = Vals[pick(r, len(Vals))]
+		if r.Intn(8) == 0 {
+			// Host lives outside the header map (req.Host); a response has none
+			n.A["name"] = "Host"
+			n.A["value"] = Hosts[pick(r, len(Hosts))]
+		}
 	case KHdrRe:
 		n.A["header"] = HNames[pick(r, len(HNames))]
 		n.A["regex"] = HdrRegexes[pick(r, len(HdrRegexes))].re
@@ -193,7 +213,7 @@ func (g *gen) filterParams(n *Node) {
 			n.A["value"] = Vals[pick(r, len(Vals))]
 		}
 	case KMethod:
-		n.A["method"] = Methods[pick(r, len(Methods))]
+		n.A["method"] = Respell(r, Methods[pick(r, len(Methods))])
 	case KCookie:
 		n.A["name"] = CNames[pick(r, len(CNames))]
 		if r.Intn(3) != 0 {
@@ -276,6 +296,10 @@ func Wish(rng *rand.Rand, n *Node, m *Msg) {
 			}
 		}
 	case KHdr:
+		if n.Attr("name") == "Host" {
+			m.Host = n.Attr("value")
+			return
+		}
 		p := Pair{n.Attr("name"), n.Attr("value")}
 		switch rng.Intn(3) {
 		case 0:
@@ -305,7 +329,7 @@ func Wish(rng *rand.Rand, n *Node, m *Msg) {
 			m.Query += "&" + kv
 		}
 	case KMethod:
-		m.Method = n.Attr("method")
+		m.Method = Respell(rng, strings.ToUpper(n.Attr("method")))
 	case KCookie:
 		v := n.Attr("value")
 		if v == "" {
@@ -344,7 +368,7 @@ func Wish(rng *rand.Rand, n *Node, m *Msg) {
 // RandMsg draws a message from the vocabulary.
 func RandMsg(rng *rand.Rand) *Msg {
 	m := &Msg{
-		Method: Methods[pick(rng, len(Methods))],
+		Method: Respell(rng, Methods[pick(rng, len(Methods))]),
 		Scheme: Schemes[pick(rng, len(Schemes))],
 		Host:   Hosts[pick(rng, len(Hosts))],
 		Path:   Paths[pick(rng, len(Paths))],
